@@ -2,10 +2,11 @@ package sim
 
 import (
 	"bytes"
-	"os"
 	"crypto/sha256"
 	"encoding/hex"
 	"fmt"
+	"mhubsim/ext"
+	"os"
 	"sort"
 	"time"
 
@@ -19,13 +20,13 @@ import (
 type Oracle interface {
 	Property() string
 	Init(w *World)
-	AfterBegin(w *World)                  // snapshot A: live state right after BeginBlock
-	BeforeTx(w *World, tx *PendingTx)     // just before DeliverTx
-	AfterTx(w *World, r *TxResult)        // snapshot B
-	AfterEnd(w *World)                    // snapshot C: after EndBlock, before Commit
-	AfterCommit(w *World)                 // committed state
-	OnExtCall(w *World, c *ExtCall)       // a relayer/user call to an external model
-	Finish(w *World)                      // end of run (history checks, liveness)
+	AfterBegin(w *World)              // snapshot A: live state right after BeginBlock
+	BeforeTx(w *World, tx *PendingTx) // just before DeliverTx
+	AfterTx(w *World, r *TxResult)    // snapshot B
+	AfterEnd(w *World)                // snapshot C: after EndBlock, before Commit
+	AfterCommit(w *World)             // committed state
+	OnExtCall(w *World, c *ExtCall)   // a relayer/user call to an external model
+	Finish(w *World)                  // end of run (history checks, liveness)
 }
 
 type BaseOracle struct{}
@@ -46,6 +47,8 @@ type ExtCall struct {
 	Err      error
 	Expected *bool // what the statement-level predicate says (nil = no opinion)
 	Info     map[string]string
+	Cur      []ext.Member // the "current validator set" the relayer got from the hub and hands to the contract
+	CurNonce uint64
 }
 
 func (w *World) tickExternal(dtSec int) {
